@@ -215,7 +215,14 @@ def build2d(B, cfg, source=None):
     num = fd.xnum.extrapol2d1() if cfg.get('num', 'extrapol2d1') == 'extrapol2d1' else \
         fd.xnum.extrapol2dk(B.var('kappa', -1.0, 1.0) if cfg.get('kappa', 'sym') == 'sym' else B.const(cfg['kappa']))
     bcs = cfg.get('bc2d', {'left': 'per', 'right': 'per', 'top': 'per', 'bottom': 'per'})
-    bclist = {k: ({'type': v} if isinstance(v, str) else dict(v)) for k, v in bcs.items()}
+    # sides given the same specification share ONE dictionary object (the usual idiom: bc = {'type': 'sym'}; {tag: bc for tag in ...})
+    shared = {}
+    bclist = {}
+    for k, v in bcs.items():
+        key = v if isinstance(v, str) else id(v)
+        if key not in shared:
+            shared[key] = {'type': v} if isinstance(v, str) else dict(v)
+        bclist[k] = shared[key]
     rhs = fd.modeldisc.fvm2dcart(model, mesh, num, bclist, numflux=cfg.get('flux', 'centered'))
     n = nx * ny
     rho, V, p, c = euler_prim(B, 'w', model.gamma, n, twod=True)
